@@ -19,8 +19,11 @@ import (
 const kinPkg = "github.com/getkin/kin-openapi/openapi3"
 
 type c15 struct {
-	r *Report
-	s *S1
+	// ownOptional: nillable fields of package specification's structs that are only ever assigned below a
+	// nil test (so they stay nil when the source member is absent): "Type.Field" -> true
+	ownOptional map[string]bool
+	r           *Report
+	s           *S1
 	// mustNonNil[f][i]: parameter i of repo function f is dereferenced without a dominating nil test
 	mustNonNil map[*ssa.Function]map[int]string
 	fns        []*ssa.Function
@@ -57,6 +60,15 @@ func runC15(r *Report) {
 	}
 	sort.Slice(c.fns, func(i, j int) bool { return c.fns[i].String() < c.fns[j].String() })
 	c.summaries()
+	c.findOwnOptional()
+	{
+		var ks []string
+		for k := range c.ownOptional {
+			ks = append(ks, k)
+		}
+		sort.Strings(ks)
+		r.Analysed["own_optional_fields"] = ks
+	}
 	c.optionalDeref()
 	c.assertOK()
 	c.panicConfined()
@@ -327,6 +339,17 @@ func nillable(t types.Type) bool {
 }
 
 func (c *c15) optionalSource(ins ssa.Instruction) (ssa.Value, string) {
+	// goag's own model: a field of a specification struct that is filled only when the source member
+	// is present (contradiction rule: the constructor tests for absence, so a reader must too)
+	if x, ok := ins.(*ssa.UnOp); ok && x.Op == token.MUL {
+		if fa, ok := x.X.(*ssa.FieldAddr); ok {
+			if k := ownFieldKey(fa); k != "" && c.ownOptional[k] {
+				if fn := ins.Parent(); fn != nil && fnPkg(fn) != nil && fnPkg(fn).Pkg.Path() != modPath+"/specification" {
+					return x, "specification." + k
+				}
+			}
+		}
+	}
 	switch x := ins.(type) {
 	case *ssa.UnOp:
 		if x.Op != token.MUL || !nillable(x.Type()) {
@@ -376,6 +399,107 @@ func (c *c15) optionalSource(ins ssa.Instruction) (ssa.Value, string) {
 		}
 	}
 	return nil, ""
+}
+
+// ownFieldKey: "Type.Field" when fa addresses a field of a struct type declared in package specification.
+func ownFieldKey(fa *ssa.FieldAddr) string {
+	t := fa.X.Type()
+	if p, ok := t.Underlying().(*types.Pointer); ok {
+		t = p.Elem()
+	}
+	n, ok := types.Unalias(t).(*types.Named)
+	if !ok || n.Obj().Pkg() == nil || n.Obj().Pkg().Path() != modPath+"/specification" {
+		return ""
+	}
+	st, ok := n.Underlying().(*types.Struct)
+	if !ok || fa.Field >= st.NumFields() {
+		return ""
+	}
+	return n.Obj().Name() + "." + st.Field(fa.Field).Name()
+}
+
+// findOwnOptional: interface- or pointer-typed fields of specification structs all of whose stores (in
+// package specification) are control-dependent on a nil test, i.e. stand in a block dominated by the
+// non-nil successor of an `x != nil` / `x == nil` branch. Such a field stays nil for a document that omits
+// the member the test is about.
+func (c *c15) findOwnOptional() {
+	c.ownOptional = map[string]bool{}
+	cond, uncond := map[string]int{}, map[string]int{}
+	for _, fn := range c.fns {
+		if pk := fnPkg(fn); pk == nil || pk.Pkg.Path() != modPath+"/specification" {
+			continue
+		}
+		// blocks dominated by the non-nil branch of some nil test in this function
+		var guards []*ssa.BasicBlock
+		for _, b := range fn.Blocks {
+			if len(b.Instrs) == 0 {
+				continue
+			}
+			iff, ok := b.Instrs[len(b.Instrs)-1].(*ssa.If)
+			if !ok {
+				continue
+			}
+			bo, ok := iff.Cond.(*ssa.BinOp)
+			if !ok || (bo.Op != token.NEQ && bo.Op != token.EQL) || !(isNilConst(bo.X) || isNilConst(bo.Y)) {
+				continue
+			}
+			nonNil, isNil := b.Succs[0], b.Succs[1]
+			if bo.Op == token.EQL {
+				nonNil, isNil = isNil, nonNil
+			}
+			// a guard clause (`if x == nil { return … }`) does not make what follows optional: when x is nil
+			// the function produces no value at all
+			if n := len(isNil.Instrs); n > 0 {
+				if _, isRet := isNil.Instrs[n-1].(*ssa.Return); isRet {
+					continue
+				}
+				if _, isPanic := isNil.Instrs[n-1].(*ssa.Panic); isPanic {
+					continue
+				}
+			}
+			guards = append(guards, nonNil)
+		}
+		for _, b := range fn.Blocks {
+			for _, ins := range b.Instrs {
+				st, ok := ins.(*ssa.Store)
+				if !ok {
+					continue
+				}
+				fa, ok := st.Addr.(*ssa.FieldAddr)
+				if !ok {
+					continue
+				}
+				k := ownFieldKey(fa)
+				if k == "" {
+					continue
+				}
+				switch fa.Type().(*types.Pointer).Elem().Underlying().(type) {
+				case *types.Interface, *types.Pointer:
+				default:
+					continue
+				}
+				if isNilConst(st.Val) {
+					continue // an explicit nil store changes nothing
+				}
+				under := false
+				for _, g := range guards {
+					if g.Dominates(b) && len(g.Preds) == 1 {
+						under = true
+					}
+				}
+				if under {
+					cond[k]++
+				} else {
+					uncond[k]++
+				}
+			}
+		}
+	}
+	for k, n := range cond {
+		if n > 0 && uncond[k] == 0 {
+			c.ownOptional[k] = true
+		}
+	}
 }
 
 // closureParamLoaderValue: every call of the function literal (call graph) passes, for parameter
